@@ -18,6 +18,7 @@ Line protocol of the secure-session model (domain `sec`).  hex = lower-case hex,
   sec cprof <a|s> <a|s>                          → 0 | 1
   sec redirect <r|s> <chain of r|s, - = empty>   → <final r|s> <index of the refused Location | ->
   sec asecure <r|s> <n|u|m|t> <any 0|1>          → 0 | 1
+  sec ckey <managed 0|1> <response 0|1> <media 0|1> <session 0|1>   → own | response | media | session | missing
   sec pinit <key> <mki> <ssrcs> <rocs>           → err | ok                       sender context A
   sec phand <nowNs> <tsValue>                    → err | ok <key> <mki> <ssrcs> <startROCs> <ROC per ssrc>    receiver B from A's MIKEY
   sec prtp <ssrc> <seq> <mode> <x>               → err | s <A's ROC> <res>      res := - | ok <B's ROC> | err   (mode 5: two results)
@@ -218,6 +219,9 @@ def mk : IO Handler := do
       match parseSch sch, parseOptSP cp with
       | some sch, some cp => return b2s (announceSecure sch cp (any == "1"))
       | _, _ => return "bad-op"
+    | ["ckey", a, b, m, s] =>
+      return match clientInKeySource (a == "1") (b == "1") (m == "1") (s == "1") with
+        | .own => "own" | .response => "response" | .mediaSdp => "media" | .sessionSdp => "session" | .missing => "missing"
     | ["pinit", key, mki, ssrcs, rocs] =>
       match unhex key, unhex mki, parseNatList ssrcs, parseNatList rocs with
       | some key, some mki, some ssrcs, some rocs =>
